@@ -224,7 +224,7 @@ static const char *explain(rcase *c) {
 
 /* replay a full history; returns false (violation already reported) on mismatch */
 static bool run_history(rcase *c, uint64_t *canon_out) {
-	rsys S;
+	rsys S; vh_case_seq++;
 	if (sys_open(&S, c->T, c->m, c->sp)) { vh_violation("open", "%s", g_fail); return false; }
 	bool ok = true;
 	for (int i = 0; i < c->nops; i++) {
@@ -262,6 +262,7 @@ static bool bfs(rcase *c) {
 			memcpy(c->ops, base, d * sizeof(int)); c->ops[d] = alpha[ai]; c->nops = d + 1;
 			uint64_t h;
 			/* replay prefix + one new step on fresh objects */
+			vh_case_seq++;
 			rsys S;
 			if (sys_open(&S, c->T, c->m, c->sp)) { vh_violation("open", "%s", g_fail); ok = false; break; }
 			bool stepok = true;
